@@ -94,7 +94,7 @@ def plan(tier, seed):
 
 
 # results that do not come out of a handler's return statement: the library builds these responses itself
-SPECIAL_RESULTS = {"raise-4.00": 128, "raise-5.03": 163, "crash-5.00": 160, "missing-4.04": 132, "method-4.05": 133}
+SPECIAL_RESULTS = {"raise-4.00": 128, "raise-5.03": 163, "crash-5.00": 160, "missing-4.04": 132, "method-4.05": 133, "tuning-cls-2.05": 69, "tuning-inst-2.05": 69, "unser-5.00": 160}
 
 
 def eff_code(rcode):
@@ -122,6 +122,10 @@ def expected(cell, ead):
         else:
             rcode_eff = eff_code(rcode)
         sup = suppressed(nr, rcode) if rcode_eff is not None else False
+        if rcode == "unser-5.00" and nr is not None:
+            # the handler's 2.05 is never serialised when the requester does not want 2.xx responses; otherwise
+            # the 5.00 that stands in for it is subject to the option like any other response
+            sup = suppressed(nr, 69) or suppressed(nr, 160)
         if typ == CON:
             if mc:
                 return None
@@ -209,7 +213,11 @@ class Node:
             if nr is not None:
                 opts.append((258, rc.uint_bytes(nr)))
             if rcode in SPECIAL_RESULTS:
-                payload = b"d=%s;c=%d;p=x;x=%s" % (repr(d).encode(), eff_code(rcode), rcode.split("-")[0].encode())
+                if rcode.startswith("tuning-"):
+                    # the handler's response carries an "unreliable" transport tuning, as class or as instance
+                    payload = b"d=%s;c=%d;p=x;tt=%s" % (repr(d).encode(), eff_code(rcode), rcode.split("-")[1].encode())
+                else:
+                    payload = b"d=%s;c=%d;p=x;x=%s" % (repr(d).encode(), eff_code(rcode), rcode.split("-")[0].encode())
             else:
                 payload = b"d=%s;c=%d;p=x" % (repr(d).encode(), rcode)
         elif code != 0:
